@@ -38,19 +38,69 @@ fn single(seed: u64, idx: u64) -> Tally {
     let sink = Push::default();
     let opts = cli::Opts::<cli::Empty, runner::basic::Cli, cli::Empty, cli::Empty> { runner: exec::runner_cli(&case.cfg), ..Default::default() };
     // The facade's type depends on which hooks are set: one arm per combination.
-    macro_rules! start {
-        ($r:expr) => {{
-            let cuc = Cucumber::<TW, P, (), _, Push, cli::Empty>::custom(P(parser), $r, sink.clone()).with_cli(opts).init_tracing();
-            let f: Pin<Box<dyn std::future::Future<Output = Push>>> = Box::pin(cuc.run(()));
+    macro_rules! facade {
+        ($r:expr) => {
+            Cucumber::<TW, P, (), _, Push, cli::Empty>::custom(P(parser), $r, sink.clone()).with_cli(opts).init_tracing()
+        };
+    }
+    macro_rules! go {
+        ($cuc:expr) => {{
+            let f: Pin<Box<dyn std::future::Future<Output = Push>>> = Box::pin($cuc.run(()));
             f
         }};
     }
-    let base = exec::base_runner(&case.cfg);
-    let mut fut = match (case.cfg.before_hook, case.cfg.after_hook) {
-        (true, true) => start!(base.before(world::before_hook).after(world::after_hook)),
-        (true, false) => start!(base.before(world::before_hook)),
-        (false, true) => start!(base.after(world::after_hook)),
-        (false, false) => start!(base),
+    // every 3rd run configures a bare runner through the `Cucumber`-level builder methods
+    // (steps, limits, retries, fail-fast, hooks) instead of through `runner::Basic`'s own
+    let through_facade = idx % 3 == 2;
+    let (bh, ah) = (case.cfg.before_hook, case.cfg.after_hook);
+    let mut fut = if through_facade {
+        let cfg = case.cfg.clone();
+        let (re, a, b) = exec::step_regexes();
+        let mut c = facade!(runner::Basic::<TW>::default());
+        if let Some(x) = cfg.b_concurrency {
+            c = c.max_concurrent_scenarios(x);
+        }
+        if let Some(n) = cfg.b_retry {
+            c = c.retries(n);
+        }
+        if let Some(d) = cfg.b_retry_after_ms {
+            c = c.retry_after(std::time::Duration::from_millis(d));
+        }
+        if let Some(f) = &cfg.b_filter {
+            c = c.retry_filter(f.parse::<cucumber::gherkin::tagexpr::TagOperation>().expect("tagexpr"));
+        }
+        if cfg.b_ff {
+            c = c.fail_fast();
+        }
+        if cfg.resume {
+            c = c.retry_options(|f, rule, sc, cli| match spec::resumed_tag(&sc.tags) {
+                Some((current, left)) => Some(runner::basic::RetryOptions { retries: cucumber::event::Retries { current, left }, after: None }),
+                None => runner::basic::RetryOptions::parse_from_tags(f, rule, sc, cli),
+            });
+        }
+        c = c.given(re.clone(), world::step_fn).when(re.clone(), world::step_fn).then(re, world::step_fn);
+        c = c
+            .given(a.clone(), world::step_fn)
+            .given(b.clone(), world::step_fn)
+            .when(a.clone(), world::step_fn)
+            .when(b.clone(), world::step_fn)
+            .then(a, world::step_fn)
+            .then(b, world::step_fn);
+        match (bh, ah) {
+            (true, true) if case.sched_seed % 2 == 1 => go!(c.after(world::after_hook).before(world::before_hook)),
+            (true, true) => go!(c.before(world::before_hook).after(world::after_hook)),
+            (true, false) => go!(c.before(world::before_hook)),
+            (false, true) => go!(c.after(world::after_hook)),
+            (false, false) => go!(c),
+        }
+    } else {
+        let base = exec::base_runner(&case.cfg);
+        match (bh, ah) {
+            (true, true) => go!(facade!(base.before(world::before_hook).after(world::after_hook))),
+            (true, false) => go!(facade!(base.before(world::before_hook))),
+            (false, true) => go!(facade!(base.after(world::after_hook))),
+            (false, false) => go!(facade!(base)),
+        }
     };
     // every 4th run is polled inside the user's own (enabled) span, as a test binary that
     // instruments its whole suite would do; created after init_tracing() installed the subscriber
@@ -86,6 +136,7 @@ fn single(seed: u64, idx: u64) -> Tally {
     t.count("qpoints", out.qpoints.len() as u64);
     t.interleavings.insert(out.sched_hash);
     t.count("c20.runs_inside_an_outer_span", u64::from(outer));
+    t.count("runs_configured_through_the_cucumber_facade", u64::from(through_facade));
     t.count("c20.deferred_in_span_logs_fired", out.qpoints.iter().filter(|q| q.decision.contains("deferred")).count() as u64);
     oracles_trace::c20(&an, &mut t, idx);
     // the same real run also feeds the runner oracles: this is the only workload
